@@ -758,8 +758,28 @@ func ruleLexEsc(c *Ctx) []Obligation {
 	// escape characters compared
 	got := map[rune]bool{}
 	var cmps []*ssa.BinOp
+	// the region that handles an unknown escape begins where pattern mode is consulted: comparisons of the escaped
+	// rune inside it (a line break after the kept backslash) treat the rune as text, they do not define an escape
+	var unknownRegion []*ssa.BasicBlock
+	if fp := FieldVar(m.lexer, "inPattern"); fp != nil {
+		eachInstr(q, func(in ssa.Instruction) {
+			if v, okv := in.(ssa.Value); okv {
+				if _, fl, _ := loadedField(v); fl == fp {
+					unknownRegion = append(unknownRegion, in.Block())
+				}
+			}
+		})
+	}
+	inUnknown := func(b *ssa.BasicBlock) bool {
+		for _, u := range unknownRegion {
+			if u.Dominates(b) {
+				return true
+			}
+		}
+		return false
+	}
 	for _, r := range *esc.Referrers() {
-		if bo, okb := r.(*ssa.BinOp); okb && bo.Op == token.EQL {
+		if bo, okb := r.(*ssa.BinOp); okb && bo.Op == token.EQL && !inUnknown(bo.Block()) {
 			if k, okk := constInt(bo.Y); okk {
 				got[rune(k)] = true
 				cmps = append(cmps, bo)
